@@ -66,7 +66,7 @@ impl Elem for String {
     fn to_pos(&self, _n: i64, _ty: &str) -> Value { json!({"tag": "val", "v": self[1..].parse::<i64>().unwrap() - 1}) }
 }
 
-fn mk<T: Elem>(a: &Value, n: i64, ty: &str) -> Interval<T> {
+pub fn mk<T: Elem>(a: &Value, n: i64, ty: &str) -> Interval<T> {
     // built from the public enum variants: no validation, the model decides what is well-formed
     match a["k"].as_str().unwrap() {
         "two" => Interval::TwoSided(
